@@ -183,7 +183,7 @@ def gen_case(rng):
 
 
 def plan(tier, seed, n):
-    per = 300 if tier == 'quick' else 15000
+    per = 1000 if tier == 'quick' else 40000
     return [{'n': per} for _ in range(n)]
 
 
